@@ -76,7 +76,7 @@ def case_body(c):
 def correspond(ctx):
     strength = "thorough" if ctx.tier == "thorough" else "quick"
     ab.start_search(ctx, "c06_impl.py", {"mode": "search", "strength": strength, "seed": ctx.seed})
-    res = ctx.run_impl("c06_impl.py", {"mode": "corr", "strength": strength, "seed": ctx.seed}, timeout=1500)
+    res = ctx.run_impl("c06_impl.py", {"mode": "corr", "strength": strength, "seed": ctx.seed}, timeout=1500, threads=ab.THREADS)
     if res is None:
         return
     cases = res["cases"]
